@@ -17,12 +17,12 @@ def run(tier, rep):
         merge_gosym(rep, res, 'syntax errors: every rejected sequence of <= %d tokens: ParseError position/lexeme = first token the reference parser cannot continue with; later tokens never read; truncation blames no token' % K)
         lr.handle(rep, res, fs, sc, 'C20')
         ref = ebnf_tokens.reference_dfa()
-        files = c05.scan_files(sc, ref, [(0, 0)], scanN=N, scanInvN=N - 1, scanTails=['', ' y\n'])
+        files = c05.scan_files(sc, ref, [(0, 0)], scanN=N, scanInvN=2, scanTails=['', ' y\n'])
         res = run_gosym(c05.base_cfg(files, 'harnessScanLoop', tier, concretize=[c05.PKG + '.advanceDFA']), sc, 'lexical', timeout=4 * 3600)
         merge_gosym(rep, res, 'lexical errors: every text of <= %d bytes: the error names file:line:column of the first character of the stray or unterminated element' % N)
         c05.handle_violations(rep, res, files, sc, prop='C20')
         res = run_gosym(c05.base_cfg(files, 'harnessScanInvalid', tier, concretize=[c05.PKG + '.advanceDFA']), sc, 'invalid', timeout=4 * 3600)
-        merge_gosym(rep, res, 'bytes that are not UTF-8: every ASCII text of <= %d bytes followed by every byte >= 0x80: complete tokens first, then an error naming the position of that byte' % (N - 1))
+        merge_gosym(rep, res, 'bytes that are not UTF-8: every ASCII text of <= %d bytes followed by every byte >= 0x80: complete tokens first, then an error naming the position of that byte' % 2)
         c05.handle_violations(rep, res, files, sc, prop='C20')
         rep.assumptions += [
             'first offending token = where the reference parser (documentation + precedence list) gets stuck; that everything before it is a viable prefix follows from the table equality of C04/S1 and the LALR correct-prefix property (not re-decided here)',
